@@ -228,8 +228,107 @@ func (m *counterModel) isBufRecv(v ssa.Value) bool {
 	return false
 }
 
+// bufEvent: the effect of one instruction on the buffer, whichever way the buffer is kept: a method of a set
+// type, a builtin on a plain map (delete, clear), a map update, or a fresh map stored into the field.
+// elems are the element operands (for "is this about v").
+func (m *counterModel) bufEvent(in ssa.Instruction) (e setEffect, k int, what string, elems []ssa.Value, ok bool) {
+	switch x := in.(type) {
+	case *ssa.MapUpdate:
+		if m.isBufRecv(x.Map) {
+			return setEffect{grows: true}, 1, "map update", []ssa.Value{x.Key}, true
+		}
+	case *ssa.Store:
+		if fa, isFA := x.Addr.(*ssa.FieldAddr); isFA {
+			if _, f := fieldVarOf(fa); sameField(f, m.bufF) {
+				if _, fresh := x.Val.(*ssa.MakeMap); fresh {
+					return setEffect{empties: true}, 0, "fresh map", nil, true
+				}
+			}
+		}
+	case *ssa.Call:
+		if b, isB := x.Call.Value.(*ssa.Builtin); isB {
+			if len(x.Call.Args) == 0 || !m.isBufRecv(x.Call.Args[0]) {
+				return
+			}
+			switch b.Name() {
+			case "delete":
+				return setEffect{shrinks: true}, 1, "delete", x.Call.Args[1:], true
+			case "clear":
+				return setEffect{empties: true}, 0, "clear", nil, true
+			}
+			return
+		}
+		cal := staticCallee(&x.Call)
+		if cal == nil || len(x.Call.Args) == 0 || !m.isBufRecv(x.Call.Args[0]) {
+			// maps.DeleteFunc(buf, pred): removes any number of elements
+			if cal != nil && len(x.Call.Args) >= 1 && m.isBufRecv(x.Call.Args[0]) {
+				return
+			}
+			if sc := x.Call.StaticCallee(); sc != nil && origin(sc).Pkg != nil && origin(sc).Pkg.Pkg.Path() == "maps" && origin(sc).Name() == "DeleteFunc" && len(x.Call.Args) >= 1 && m.isBufRecv(x.Call.Args[0]) {
+				return setEffect{shrinks: true}, posInf, "DeleteFunc", nil, true
+			}
+			return
+		}
+		if o := origin(cal); o != nil && o.Pkg != nil && o.Pkg.Pkg.Path() == "maps" && o.Name() == "DeleteFunc" {
+			return setEffect{shrinks: true}, posInf, "DeleteFunc", nil, true
+		}
+		eff, known := m.effects[cal]
+		if !known {
+			eff = classifySetMethod(cal)
+			m.effects[cal] = eff
+		}
+		if !eff.grows && !eff.shrinks && !eff.empties {
+			return
+		}
+		// the variadic element arguments
+		if n := len(x.Call.Args); n >= 2 {
+			if sl, isSl := x.Call.Args[n-1].(*ssa.Slice); isSl {
+				if al, isAl := sl.X.(*ssa.Alloc); isAl {
+					for _, r := range referrersOf(al) {
+						if ia, isIA := r.(*ssa.IndexAddr); isIA {
+							for _, r2 := range referrersOf(ia) {
+								if st, isSt := r2.(*ssa.Store); isSt {
+									elems = append(elems, st.Val)
+								}
+							}
+						}
+					}
+				}
+			}
+		}
+		return eff, variadicCount(x), cal.Name(), elems, true
+	}
+	return
+}
+
 // lenCall: v is a call that reads |buf|.
 func (m *counterModel) isLenOfBuf(v ssa.Value) bool {
+	if ph, isPhi := v.(*ssa.Phi); isPhi {
+		// a loop variable re-read from the buffer on every edge (for n := Len(); …; n = Len()): current as long
+		// as nothing touches the buffer between the read and the end of the block it is made in
+		if len(ph.Edges) == 0 {
+			return false
+		}
+		for i, e := range ph.Edges {
+			ec, isCall := e.(*ssa.Call)
+			if !isCall || !m.isLenOfBuf(e) || ec.Block() != ph.Block().Preds[i] {
+				return false
+			}
+			after := false
+			for _, in := range ec.Block().Instrs {
+				if in == ssa.Instruction(ec) {
+					after = true
+					continue
+				}
+				if after {
+					if _, _, _, _, touches := m.bufEvent(in); touches {
+						return false
+					}
+				}
+			}
+		}
+		return true
+	}
 	call, ok := v.(*ssa.Call)
 	if !ok {
 		return false
@@ -277,31 +376,23 @@ func (m *counterModel) analyse(fn *ssa.Function, entry ival) (ival, string) {
 	worst := ""
 	transfer := func(b *ssa.BasicBlock, s ival) ival {
 		for _, ins := range b.Instrs {
-			call, ok := ins.(*ssa.Call)
-			if !ok {
-				continue
-			}
-			cal := staticCallee(&call.Call)
-			if h := m.recvHelper(call, fn); h != nil && m.depth < 4 {
-				// a helper method on the same counter: its effect on δ is its own exit interval
-				m.depth++
-				ex, _ := m.analyse(h, s)
-				m.depth--
-				if ex.bot {
-					return ival{bot: true}
+			if call, ok := ins.(*ssa.Call); ok {
+				if h := m.recvHelper(call, fn); h != nil && m.depth < 4 {
+					// a helper method on the same counter: its effect on δ is its own exit interval
+					m.depth++
+					ex, _ := m.analyse(h, s)
+					m.depth--
+					if ex.bot {
+						return ival{bot: true}
+					}
+					s = ex
+					continue
 				}
-				s = ex
-				continue
 			}
-			if cal == nil || len(call.Call.Args) == 0 || !m.isBufRecv(call.Call.Args[0]) {
-				continue
-			}
-			e, ok := m.effects[cal]
+			e, k, _, _, ok := m.bufEvent(ins)
 			if !ok {
-				e = classifySetMethod(cal)
-				m.effects[cal] = e
+				continue
 			}
-			k := variadicCount(call)
 			switch {
 			case e.empties && !e.grows:
 				s.lo, s.hi = negInf, -1 // |buf| = 0 and cap >= 1
@@ -464,7 +555,9 @@ func runC19(c *Ctx) {
 						c.bad("R-BUF-BOUND", fnName(fn)+":store cap", st.Pos(), "capacity is changed after construction")
 					}
 					if sameField(f, m.bufF) && !(isAlloc && origin(fn) == ctor) {
-						c.bad("R-BUF-BOUND", fnName(fn)+":store buf", st.Pos(), "buffer is replaced after construction (its size is no longer tracked)")
+						if _, fresh := st.Val.(*ssa.MakeMap); !fresh {
+							c.bad("R-BUF-BOUND", fnName(fn)+":store buf", st.Pos(), "buffer is replaced after construction by something other than a fresh empty map (its size is no longer tracked)")
+						}
 					}
 				}
 			}
@@ -537,12 +630,8 @@ func runC19(c *Ctx) {
 				if _, isAlloc := fa.X.(*ssa.Alloc); !isAlloc {
 					emptied := false
 					for _, in2 := range st.Block().Instrs {
-						if call, ok := in2.(*ssa.Call); ok {
-							if cal := staticCallee(&call.Call); cal != nil && len(call.Call.Args) > 0 && m.isBufRecv(call.Call.Args[0]) {
-								if e := classifySetMethod(cal); e.empties {
-									emptied = true
-								}
-							}
+						if e, _, _, _, ok := m.bufEvent(in2); ok && e.empties {
+							emptied = true
 						}
 					}
 					c.judge(emptied, "R-RESET-PAIR", fnName(fn)+":p=Max", st.Pos(), "buffer emptied together with p := MaxUint64", "p returns to probability 1 while the buffer keeps a down-sampled set: Count is no longer exact after Reset")
@@ -609,17 +698,11 @@ func runC19(c *Ctx) {
 	// ---- converse of R-RESET-PAIR: emptying the buffer outside the constructor returns p to MaxUint64 in the same block
 	for _, fn := range methods {
 		allInstrs(fn, func(in ssa.Instruction) {
-			call, ok := in.(*ssa.Call)
-			if !ok {
-				return
+			e, _, what, _, ok := m.bufEvent(in)
+			if !ok || !e.empties || what == "fresh map" {
+				return // a lazily allocated fresh map replaces a nil (empty) one: nothing is discarded
 			}
-			cal := staticCallee(&call.Call)
-			if cal == nil || len(call.Call.Args) == 0 || !m.isBufRecv(call.Call.Args[0]) {
-				return
-			}
-			if e := classifySetMethod(cal); !e.empties {
-				return
-			}
+			call := in
 			reset := false
 			for _, in2 := range in.Block().Instrs {
 				if st, ok := in2.(*ssa.Store); ok {
@@ -640,35 +723,33 @@ func runC19(c *Ctx) {
 	if add := P.Func("distinct", "Counter", "Add"); add != nil && len(add.Params) == 2 {
 		v := add.Params[1]
 		touchesV := func(in ssa.Instruction) bool {
-			call, ok := in.(*ssa.Call)
-			if !ok {
+			e, _, _, elems, ok := m.bufEvent(in)
+			if !ok || (!e.grows && !e.shrinks) {
 				return false
 			}
-			cal := staticCallee(&call.Call)
-			if cal == nil || len(call.Call.Args) < 2 || !m.isBufRecv(call.Call.Args[0]) {
-				return false
-			}
-			e := classifySetMethod(cal)
-			if !e.grows && !e.shrinks {
-				return false
-			}
-			// the variadic argument carries the parameter v
-			if sl, ok := call.Call.Args[len(call.Call.Args)-1].(*ssa.Slice); ok {
-				if al, ok := sl.X.(*ssa.Alloc); ok {
-					for _, r := range referrersOf(al) {
-						if ia, ok := r.(*ssa.IndexAddr); ok {
-							for _, r2 := range referrersOf(ia) {
-								if st, ok := r2.(*ssa.Store); ok && st.Val == ssa.Value(v) {
-									return true
-								}
-							}
-						}
-					}
+			for _, el := range elems {
+				if el == ssa.Value(v) {
+					return true
 				}
 			}
 			return false
 		}
-		okR, wit := mustPassToExit(P, firstInstr(add), touchesV)
+		okR, wit := mustPassToExitE(P, firstInstr(add), touchesV, func(iff *ssa.If, i int) bool {
+			// on an edge where the buffer is known to be empty, "remove v" has nothing to do
+			cm, ok := edgeCmp(iff, i)
+			if !ok {
+				return false
+			}
+			x, y, op := cm.X, cm.Y, cm.Op
+			if !m.isLenOfBuf(x) && m.isLenOfBuf(y) {
+				x, y, op = y, x, flipOp(op)
+			}
+			if !m.isLenOfBuf(x) {
+				return false
+			}
+			k, isC := constInt(y)
+			return isC && ((op == token.EQL && k == 0) || (op == token.LEQ && k == 0) || (op == token.LSS && k == 1))
+		})
 		if touchesV(firstInstr(add)) {
 			okR = true
 		}
@@ -729,6 +810,15 @@ func runC19(c *Ctx) {
 						}
 					}
 				case *ssa.Call:
+					if _, _, w, _, ok := m.bufEvent(x); ok && w == "DeleteFunc" {
+						// a removal pass written as maps.DeleteFunc over the buffer
+						b := x.Block()
+						for k, in2 := range b.Instrs {
+							if in2 == in && k+1 < len(b.Instrs) {
+								passes = append(passes, pass{x, b.Instrs[k+1]})
+							}
+						}
+					}
 					if h := m.recvHelper(x, fn); h != nil {
 						judgeFn(h, depth+1)
 						if unpaired[h] {
@@ -787,6 +877,9 @@ func runC19(c *Ctx) {
 				if cst, ok := y.(*ssa.Const); ok && cst.Value != nil && constant.Compare(constant.ToInt(cst.Value), token.EQL, maxU) && (op == token.LSS || op == token.NEQ) {
 					return true
 				}
+			}
+			if !m.isLenOfBuf(x) && m.isLenOfBuf(y) {
+				x, y, op = y, x, flipOp(op)
 			}
 			if m.isLenOfBuf(x) {
 				if _, f := loadedField(y); f != nil && sameField(f, m.capF) && (op == token.GEQ || op == token.GTR || op == token.EQL) {
@@ -849,18 +942,9 @@ func runC19(c *Ctx) {
 		for _, fn := range cl {
 			allInstrs(fn, func(in ssa.Instruction) {
 				var what string
-				switch x := in.(type) {
-				case *ssa.Call:
-					cal := staticCallee(&x.Call)
-					if cal == nil || len(x.Call.Args) == 0 || !m.isBufRecv(x.Call.Args[0]) {
-						return
-					}
-					e := classifySetMethod(cal)
-					if !e.shrinks && !e.empties {
-						return
-					}
-					what = "removal " + cal.Name()
-				case *ssa.Store:
+				if e, _, w, _, ok := m.bufEvent(in); ok && (e.shrinks || e.empties) && w != "fresh map" {
+					what = "removal " + w
+				} else if x, isSt := in.(*ssa.Store); isSt {
 					fa, ok := x.Addr.(*ssa.FieldAddr)
 					if !ok {
 						return
@@ -869,7 +953,7 @@ func runC19(c *Ctx) {
 						return
 					}
 					what = "halving of p"
-				default:
+				} else {
 					return
 				}
 				n++
